@@ -651,7 +651,7 @@ pub fn run(ctx: &mut Ctx) {
         &|s: &Seq, info: &mut Info| Verdict::from_result(check_sequence(&s.0, info)),
     );
     ctx.exhaustive_all = true;
-    let n = ctx.q(3000, 100000);
+    let n = ctx.q(30000, 400000);
     ctx.explore::<Seq>(
         "random",
         n,
